@@ -12,3 +12,11 @@ CLAIMS = {
         note=BASE_NOTE),
 }
 NOT_CLAIMED = {}
+
+for _m in ("claims_vec", "claims_str", "claims_box", "claims_borrow", "claims_threads"):
+    try:
+        _mod = __import__(_m)
+        CLAIMS.update(_mod.CLAIMS)
+        NOT_CLAIMED.update(getattr(_mod, "NOT_CLAIMED", {}))
+    except ImportError:
+        pass
